@@ -310,6 +310,7 @@ template <class E> struct Runner {
         std::vector<Json> samples;
         std::set<std::string> sample_kinds;
         std::vector<std::pair<uint64_t, std::pair<Json, Result>>> violations; // run, plan, result
+        std::vector<std::pair<uint64_t, uint64_t>> spot; // (run, digest) of the first run of some batches, re-executed after the sweep
     };
 
     void child_batch(uint64_t batch, size_t bsz, uint64_t max_runs, const std::string &outp, volatile uint64_t *cur) {
@@ -362,6 +363,7 @@ template <class E> struct Runner {
                 unsigned long long run, steps; char dg[32]; int nt;
                 if (sscanf(line.c_str(), "R %llu %31s %d %llu", &run, dg, &nt, &steps) == 4) {
                     agg.evaluations++; agg.steps += steps;
+                    if (run % bsz == 0 && agg.spot.size() < 4096) agg.spot.push_back({run, strtoull(dg, nullptr, 16)});
                     if (nt) { agg.nontrivial++; agg.distinct.insert(strtoull(dg, nullptr, 16)); }
                 }
             } else if (t == 'C') {
@@ -520,6 +522,23 @@ template <class E> struct Runner {
             reported.push(rep);
         }
 
+        // ---- continuous determinism gate: re-execute a sample of runs alone in fresh children; digests must match ----
+        uint64_t gate_replayed = 0, gate_matched = 0;
+        if (agg.violations.empty() && !agg.spot.empty()) {
+            Rng pick(opt.seed, "spot");
+            size_t want = std::min<size_t>(agg.spot.size(), opt.thorough ? 200 : 40);
+            for (size_t k = 0; k < want; k++) {
+                auto sp = agg.spot[pick.below(agg.spot.size())];
+                Json pk = E::pknobs(opt.seed, sp.first / bsz, opt.thorough);
+                Plan plan = E::generate(opt.seed, sp.first, pk, opt.thorough);
+                Result r = (k % 10 == 0) ? run_exec(plan) : run_forked(plan);
+                gate_replayed++;
+                if (!r.violated && r.digest == sp.second) gate_matched++;
+                else printf("HARNESS-NONDETERMINISM property=%s run=%llu digest in sweep %s, re-executed alone %s%s\n", E::property(), (unsigned long long) sp.first,
+                            hex64(sp.second).c_str(), hex64(r.digest).c_str(), r.violated ? (" violated: " + r.vclass).c_str() : "");
+            }
+            if (gate_matched != gate_replayed) unconfirmed++;
+        }
         if (unconfirmed && exit_code == 0) exit_code = 2; // harness (or un-replayable) trouble, never a property verdict
         // ---- partial evidence ----
         double wall = now_s() - t0;
@@ -544,6 +563,9 @@ template <class E> struct Runner {
         Json sm = Json::array();
         for (auto &s : agg.samples) sm.push(s);
         ev["samples"] = sm;
+        Json dgate = Json::object();
+        dgate["replayed"] = gate_replayed; dgate["matched"] = gate_matched;
+        ev["determinism_gate"] = dgate;
         ev["violations"] = nviol; ev["known_findings"] = nknown; ev["reports"] = reported;
         ev["harness_error"] = exit_code == 2;
         E::describe(ev);
